@@ -144,6 +144,31 @@ template <class T, int L, glm::qualifier Q> struct OpsCase {
 				if (L >= 2 && distinct(a, L) && distinct(b, L) && distinct(want, L)) nt = true;
 			}
 		}
+		// ---- the right operand is the left operand itself (v op= v), or one of its components taken by reference (v op= v[0] or v[L-1]):
+		//      the result is the one obtained with an independent copy of the operand
+		if constexpr (Have<Op, 5, L, T>::v) {
+			T aa[4], bb[4];
+			for (int i = 0; i < L; ++i) { aa[i] = b0[i]; bb[i] = b0[i]; }
+			bool same = fix_pairs(k, aa, L, bb, L);
+			for (int i = 0; i < L && same; ++i) if (!eq_bits(aa[i], bb[i])) same = false;
+			if (same) {
+				for (int i = 0; i < L; ++i) { T r = aa[i]; Op::asg(r, bb[i]); want[i] = r; }
+				V x = mk(aa); Op::asg(x, x);
+				cmp(Op::word(), Op::tok(), "assign.self", x, want, aa, L, bb, L);
+			}
+		}
+		if constexpr (Have<Op, 6, L, T>::v) {
+			T a[4], s;
+			for (int i = 0; i < L; ++i) a[i] = a0[i];
+			const int j = c.coin() ? 0 : L - 1;  // first component: an in-place loop changes it before the others read it; last: a reversed one
+			s = a[j];
+			const T s_before = s;
+			if (fix_pairs(k, a, L, &s, 1) && eq_bits(s, s_before) && eq_bits(a[j], s)) {
+				for (int i = 0; i < L; ++i) { T r = a[i]; Op::asg(r, s); want[i] = r; }
+				V x = mk(a); Op::asg(x, x[j]);
+				cmp(Op::word(), Op::tok(), "assign.own-component", x, want, a, L, &s, 1);
+			}
+		}
 		// ---- vec op scalar, vec op vec1, vec op= scalar, vec op= vec1
 		{
 			T a[4], s = s0;
